@@ -49,12 +49,43 @@ pub fn consumed_by_server(port: u16) -> u64 {
         .sum()
 }
 
+/// Claims a port for this process: the servers listen with SO_REUSEPORT, so two harness processes that find
+/// the same port free at the same moment would both bind it and share its connections.  The claim is a
+/// lock file created exclusively (it names the owner; a dead owner's claim is taken over).
+fn claim_port(p: u16) -> bool {
+    use std::io::Write as W;
+    let dir = std::path::Path::new("/tmp/mcverif-portlocks");
+    let _ = std::fs::create_dir_all(dir);
+    let path = dir.join(p.to_string());
+    for _ in 0..2 {
+        match std::fs::OpenOptions::new().write(true).create_new(true).open(&path) {
+            Ok(mut f) => {
+                let _ = write!(f, "{}", std::process::id());
+                return true;
+            }
+            Err(_) => {
+                let owner = std::fs::read_to_string(&path).ok().and_then(|s| s.trim().parse::<u32>().ok());
+                match owner {
+                    Some(pid) if pid == std::process::id() => return false, // one port, one server per process
+                    Some(pid) if std::path::Path::new(&format!("/proc/{}", pid)).exists() => return false,
+                    _ => {
+                        let _ = std::fs::remove_file(&path);
+                    }
+                }
+            }
+        }
+    }
+    false
+}
+
 pub fn free_port(base: u16) -> u16 {
     let mut p = base;
     loop {
-        if let Ok(l) = TcpListener::bind(("127.0.0.1", p)) {
-            drop(l);
-            return p;
+        if claim_port(p) {
+            if let Ok(l) = TcpListener::bind(("127.0.0.1", p)) {
+                drop(l);
+                return p;
+            }
         }
         p = if p >= 60000 { 20000 } else { p + 1 };
     }
@@ -423,6 +454,139 @@ pub fn run_cut_universe(srv: &Server, bytes: &[u8], seg: &[usize], u: usize, com
     let segdesc = if seg.len() > 8 { format!("{} chunks, first {:?}", seg.len(), &seg[..4]) } else { format!("{:?}", seg) };
     writeln!(out, "{}", json!({"e": "trun", "u": u, "seg": segdesc, "how": how, "delivered": delivered, "complete": complete,
         "r": rs, "resp": hex(&masked), "store": snapshot_json(srv), "nreads": nreads, "maxcap": maxcap,
+        "panics": PANICS.load(Ordering::SeqCst) - panics0})).unwrap();
+    1
+}
+
+// ---------------------------------------------------------------------------------------------
+// slow readers: responses larger than the socket buffers, read late / in drips (back-pressure on the
+// server's write path).  The events are compact: long values are replaced by a digest and their length.
+
+fn fnv(b: &[u8]) -> String {
+    let mut h: u64 = 0xcbf29ce484222325;
+    for x in b {
+        h ^= *x as u64;
+        h = h.wrapping_mul(0x100000001b3);
+    }
+    format!("{:016x}", h)
+}
+
+/// replaces a long hex value by "#<digest>" and records its length in bytes as "vl"
+fn compact_value(r: &mut Value, field: &str) {
+    let v = r[field].as_str().unwrap_or("").to_string();
+    let n = v.len() / 2;
+    r["vl"] = json!(n);
+    if n > 64 {
+        r[field] = json!(format!("#{}", fnv(v.as_bytes())));
+    }
+}
+
+/// One universe of a frame stream whose answers exceed the socket buffers.  `mode`:
+///   "attentive"  the client reads while the server answers
+///   "late"       small receive buffer, nothing is read for 1.5 s, then everything
+///   "drip"       small receive buffer, 16 KiB reads with pauses
+pub fn run_slow_universe(srv: &Server, frames: &[Frame], mode: &str, u: usize, out: &mut dyn Write) -> usize {
+    use std::io::Read as R;
+    use std::io::Write as W;
+    reset_store(srv);
+    HOOK_LOG.lock().unwrap().clear();
+    let panics0 = PANICS.load(Ordering::SeqCst);
+    let mut bytes = Vec::new();
+    for f in frames {
+        bytes.extend_from_slice(&f.bytes());
+    }
+    bytes.extend_from_slice(&Frame::consistent(0x0a, &[], &[], &[], SENTINEL, 0).bytes());
+    let sock = socket2::Socket::new(socket2::Domain::IPV4, socket2::Type::STREAM, None).unwrap();
+    if mode != "attentive" {
+        let _ = sock.set_recv_buffer_size(8192);
+    }
+    let addr: SocketAddr = format!("127.0.0.1:{}", srv.port).parse().unwrap();
+    if sock.connect(&addr.into()).is_err() {
+        return 0;
+    }
+    let mut s: TcpStream = sock.into();
+    let _ = s.set_nodelay(true);
+    let lport = s.local_addr().map(|a| a.port()).unwrap_or(0);
+    // the requests are written by a thread of their own: the server stops reading while it cannot write
+    let mut w = s.try_clone().unwrap();
+    let writer = std::thread::spawn(move || w.write_all(&bytes).is_ok());
+    if mode == "late" {
+        std::thread::sleep(Duration::from_millis(1500));
+    }
+    let t0 = Instant::now();
+    let mut resp: Vec<u8> = Vec::new();
+    let mut buf = vec![0u8; if mode == "drip" { 16384 } else { 1 << 16 }];
+    let mut how = "timeout";
+    let mut scanned = 0usize; // start of the first frame not yet known to be complete
+    while t0.elapsed() < Duration::from_secs(30) {
+        // has the sentinel's answer arrived? (incremental scan)
+        let mut done = false;
+        while scanned + 24 <= resp.len() {
+            let bl = u32::from_be_bytes([resp[scanned + 8], resp[scanned + 9], resp[scanned + 10], resp[scanned + 11]]) as usize;
+            if scanned + 24 + bl > resp.len() {
+                break;
+            }
+            let opq = u32::from_be_bytes([resp[scanned + 12], resp[scanned + 13], resp[scanned + 14], resp[scanned + 15]]);
+            if opq == SENTINEL && resp[scanned] == 0x81 {
+                done = true;
+            }
+            scanned += 24 + bl;
+        }
+        if done {
+            how = "done";
+            break;
+        }
+        let _ = s.set_read_timeout(Some(Duration::from_millis(if resp.is_empty() { 6000 } else { 3000 })));
+        match s.read(&mut buf) {
+            Ok(0) => {
+                how = "eof";
+                break;
+            }
+            Ok(n) => resp.extend_from_slice(&buf[..n]),
+            Err(e) if e.kind() == std::io::ErrorKind::WouldBlock || e.kind() == std::io::ErrorKind::TimedOut => {
+                how = "timeout";
+                break;
+            }
+            Err(_) => {
+                how = "reset";
+                break;
+            }
+        }
+        if mode == "drip" {
+            std::thread::sleep(Duration::from_micros(300));
+        }
+    }
+    let _ = s.shutdown(Shutdown::Both);
+    let delivered = writer.join().unwrap_or(false);
+    if how != "done" {
+        std::thread::sleep(Duration::from_millis(5));
+    }
+    let maxcap: u64 = hook_snapshot().iter().filter(|e| e.site == "conn.read" && e.nums[0] == lport as u64).map(|e| e.nums[3]).max().unwrap_or(0);
+    let nreads = hook_snapshot().iter().filter(|e| e.site == "conn.read" && e.nums[0] == lport as u64).count();
+    let mut rs = parse_responses(&resp);
+    for r in rs.iter_mut() {
+        compact_value(r, "v");
+        if r["raw"].as_str().map(|x| x.len()).unwrap_or(0) > 128 {
+            r["raw"] = json!("#long");
+        }
+    }
+    let mut masked = resp.clone();
+    let mut i = 0;
+    while i + 24 <= masked.len() {
+        let bl = u32::from_be_bytes([masked[i + 8], masked[i + 9], masked[i + 10], masked[i + 11]]) as usize;
+        for b in masked[i + 16..i + 24].iter_mut() {
+            *b = 0;
+        }
+        i += 24 + bl;
+    }
+    let mut store = snapshot_json(srv);
+    if let Some(a) = store.as_array_mut() {
+        for x in a.iter_mut() {
+            compact_value(x, "v");
+        }
+    }
+    writeln!(out, "{}", json!({"e": "trun", "u": u, "seg": mode, "slow": mode, "how": how, "delivered": delivered,
+        "r": rs, "resp": format!("#{}:{}", masked.len(), fnv(&masked)), "store": store, "nreads": nreads, "maxcap": maxcap,
         "panics": PANICS.load(Ordering::SeqCst) - panics0})).unwrap();
     1
 }
